@@ -798,6 +798,9 @@ def min(x:Tensor, dim:int, keepdims:bool=False) -> 'Tensor':
     if not isinstance(x, Tensor):
         raise TypeError(f"Expected x to be a Tensor but got {type(x)}")
     
+    if dim is not None and not isinstance(dim, int):
+        raise TypeError(f"Expected dim to be an int or None but got {type(dim)}")
+    
     if x.device == Device.CPU:
         out_data = cpu_ops.min_forward(x.data, dim, keepdims)
     else:
